@@ -1829,6 +1829,10 @@ class LocationMaker:
                 max_ref_uri = schema.max_ref
                 _, _, max_ref_name = max_ref_uri.partition("#")
                 maxItems = int(self.anchors[max_ref_name].value(self.instance))
+                if maxItems < 0:
+                    raise ValueError(
+                        f"OCCURS DEPENDING ON {max_ref_name} is negative: {maxItems}"
+                    )
                 # Compute the locations based on the number of items.
                 sublocation = self.walk(schema.items, start)
                 sublocation.unpacker = self.unpacker
